@@ -293,9 +293,65 @@ func init() {
 		r, err := tensor.Repeat(w.ts[atoi(f[1])], atoi(f[2]), ints(f[3])...)
 		return w.ret(r, err)
 	}
-	// un:<op>:<a>:<mode>
+	// un:<op>:<a>:<mode>     op = neg | square | cube | abs | sign | clamp.<lo>.<hi>
 	progOps["un"] = func(w *world, f []string) string {
 		a := w.ts[atoi(f[2])]
+		if strings.HasPrefix(f[1], "clamp.") {
+			p := strings.Split(f[1], ".")
+			return w.ret(tensor.Clamp(a, tokVal(w.dt, atoi(p[1])), tokVal(w.dt, atoi(p[2])), w.opts(f[3], false)...))
+		}
 		return w.ret(unFuncs[f[1]](a, w.opts(f[3], false)...))
 	}
+	// apply:<op>:<a>:<mode>  Dense.Apply with a Go function of the element type computing <op>
+	progOps["apply"] = func(w *world, f []string) string {
+		a := w.ts[atoi(f[2])]
+		return w.ret(a.Apply(applyFn(w.dt, f[1]), w.opts(f[3], false)...))
+	}
+}
+
+// applyFn: a user function of the dtype for Dense.Apply (neg | square | abs)
+func applyFn(dt, op string) interface{} {
+	switch dt {
+	case "f64":
+		return map[string]func(float64) float64{"neg": func(x float64) float64 { return -x }, "square": func(x float64) float64 { return x * x },
+			"abs": func(x float64) float64 {
+				if x < 0 {
+					return -x
+				}
+				return x
+			}}[op]
+	case "f32":
+		return map[string]func(float32) float32{"neg": func(x float32) float32 { return -x }, "square": func(x float32) float32 { return x * x },
+			"abs": func(x float32) float32 {
+				if x < 0 {
+					return -x
+				}
+				return x
+			}}[op]
+	case "i":
+		return map[string]func(int) int{"neg": func(x int) int { return -x }, "square": func(x int) int { return x * x },
+			"abs": func(x int) int {
+				if x < 0 {
+					return -x
+				}
+				return x
+			}}[op]
+	case "i64":
+		return map[string]func(int64) int64{"neg": func(x int64) int64 { return -x }, "square": func(x int64) int64 { return x * x },
+			"abs": func(x int64) int64 {
+				if x < 0 {
+					return -x
+				}
+				return x
+			}}[op]
+	case "i32":
+		return map[string]func(int32) int32{"neg": func(x int32) int32 { return -x }, "square": func(x int32) int32 { return x * x },
+			"abs": func(x int32) int32 {
+				if x < 0 {
+					return -x
+				}
+				return x
+			}}[op]
+	}
+	panic("applyFn dtype " + dt)
 }
